@@ -222,7 +222,7 @@ def run(ctx):
     # ---- sessions in separate interpreter processes (different hash seeds), evaluator with four class groups, kill + restart
     n_rs = ctx.scale(2, 8)
     for i in range(n_rs):
-        lines, sq, rep = A.restart_smoke(rng)
+        lines, sq, rep = A.restart_smoke(rng, default_metrics=(i % 2 == 0))
         ctx.count({"restart_smoke": rep.get("killed_after"), "seeds": rep.get("hash_seeds")}, True)
         ctx.bump("restart in a fresh interpreter process (final file only)")
         probs = A.restart_smoke_problems(lines, sq, rep)
@@ -242,17 +242,30 @@ def session_histories(ctx) -> list:
     # every history of L steps over two equally long subject names and the sessions 0 / 1 (a session index is valid once created)
     L = 5 if ctx.tier == "thorough" else 4
     steps = [["new"]] + [[k, i, n] for k in ("ok", "die") for i in (0, 1) for n in ("s1", "s2")]
+    # two more kinds of steps: a constructor with another setup (must be refused, touching nothing) and an evaluation that raises
+    # an ordinary exception while another submission completes inside its window
+    steps += [["refused"]] + [["fail", i, "failing", [["ok", j, n]]] for i in (0, 1) for j in (0, 1) for n in ("s1", "s2")]
     cases = []
     for h in itertools.product(steps, repeat=L):
         n_s, ok = 1, True
+        n_special = 0
         for st in h:
             if st[0] == "new":
                 n_s += 1
+            elif st[0] == "refused":
+                n_special += 1
+            elif st[0] == "fail":
+                n_special += 1
+                if st[1] >= n_s or st[3][0][1] >= n_s:
+                    ok = False
+                    break
             elif st[1] >= n_s:
                 ok = False
                 break
+        if n_special > 1:
+            ok = False                 # at most one of the two special steps per enumerated history (keeps the layer small)
         if ok:
-            cases.append({"history_case": True, "subjects": ["s1", "s2"], "history": [list(st) for st in h], "file": "a.tsv", "sibling": "b.tsv"})
+            cases.append({"history_case": True, "subjects": ["s1", "s2"], "history": json.loads(json.dumps(list(h))), "file": "a.tsv", "sibling": "b.tsv"})
     n_enum = len(cases)
     cases += [A.history_case(rng) for _ in range(ctx.scale(60, 1500))]
     results = []
@@ -266,8 +279,9 @@ def session_histories(ctx) -> list:
             n_dis += 1
             ctx.disagree("live-session history: files after a step differ from Model/AggHistory.v", dict(case, differs=d))
         ctx.count(case, any(s[0] == "new" for s in case["history"]))
-        ctx.bump("session history: %d sessions, %d interrupted" % (1 + sum(1 for s in case["history"] if s[0] == "new"),
-                                                                    sum(1 for s in case["history"] if s[0] == "die")))
+        ctx.bump("session history: %d sessions, %d interrupted, %d failing, %d refused constructors" % (
+            1 + sum(1 for s in case["history"] if s[0] == "new"), sum(1 for s in case["history"] if s[0] == "die"),
+            sum(1 for s in case["history"] if s[0] == "fail"), sum(1 for s in case["history"] if s[0] == "refused")))
         probs = A.history_problems(case, res)
         if probs and n_bad < 5:
             n_bad += 1
